@@ -44,22 +44,25 @@ def correspondence_name(prop):
 
 def theorems(prop):
     return [
+        "Iauthd.Properties.C19",
+        "Iauthd.Properties.C19_stock_comparators",
         "Iauthd.Set.splay_inorder",
         "Iauthd.Set.splay_root_spec",
         "Iauthd.Set.inv_step",
         "Iauthd.Set.step_refines",
         "Iauthd.Set.C19_refinement",
+        "Iauthd.Set.dispose_step",
         "Iauthd.Set.C19_dispose_once",
         "Iauthd.Set.cmpInt3_laws",
         "Iauthd.Set.cmpCharp_laws",
         "Iauthd.Set.cmpPtr_laws",
         "Iauthd.Set.cmpIntSub_not_lawful",
-        "Iauthd.Properties.C19",
+        "Drv.SetDrv.cmpOf_laws",
     ]
 
 
 def lean_imports(prop):
-    return ["Iauthd.Properties.C19"]
+    return ["Iauthd.Properties.C19", "Drv.SetMain"]
 
 
 def lean_targets(prop):
@@ -67,7 +70,7 @@ def lean_targets(prop):
 
 
 def lean_modules(prop):
-    return ["Iauthd.Set.Model", "Iauthd.Set.Spec", "Iauthd.Set.Proofs", "Iauthd.Properties.C19"]
+    return ["Iauthd.Set.Model", "Iauthd.Set.Spec", "Iauthd.Set.Proofs", "Iauthd.Set.Dispose", "Iauthd.Set.Comparators", "Iauthd.Properties.C19"]
 
 
 def checker_cmd(prop):
